@@ -103,6 +103,9 @@ def run(chk):
     jecxzrule.run(chk)
     from lib import labelbase
     labelbase.run(chk)
+    from lib import strsegment, fpuarith
+    strsegment.run(chk)
+    fpuarith.run(chk, enum)
     return chk.finish(
         level="other", exhaustive=False,
         explanation=("Table, database and dispatch rules over the x86 backend of /repo's current source: every entry of the encoder's "
